@@ -135,6 +135,7 @@ def gen_case(seed, tier, i):
                      'order': rng.choice(['code_first', 'diff_first', 'diff_first']),
                      # renaming a name to itself is legal: the announced new code equals the buffer text
                      'identity': rng.random() < 0.12,
+                     'inspect_after': rng.random() < 0.6,
                      'back': rng.random() < 0.3,
                      'between': rng.choice(['none', 'none', 'gc', 'advance', 'host_restart', 'query'])})
     knobs = {'fast_parser': rng.random() < 0.8, 'cached_size_trigger': rng.choice([2, 600])}
@@ -421,6 +422,10 @@ class C07(base.Engine):
                     seg.append({'op': 'advance', 'ns': 1500 * 10**6})
                     seg.append({'op': 'refactor_apply', 'sid': sid, 'rid': 'r'})
                     seg.append({'op': 'advance', 'ns': 1500 * 10**6})
+                    if step.get('inspect_after', True):
+                        # the Refactoring object outlives apply(): its views must not change
+                        seg.append({'op': 'refactor_inspect', 'sid': sid, 'rid': 'r',
+                                    'order': step.get('order', 'code_first')})
                 seg.append({'op': 'drop', 'sid': sid})
                 b = step['between']
                 if b == 'gc':
@@ -476,7 +481,10 @@ class C07(base.Engine):
                             stats['refused:%s' % (res[1] if isinstance(res, list) and len(res) > 1 else res)] += 1
                     elif op['op'] == 'refactor_inspect' and desc is not None:
                         if res != desc:
-                            problems.append(('inspect_unstable', {'op': ev['i']}))
+                            what = [k for k in ('files', 'renames', 'diff', 'diff_again')
+                                    if not isinstance(res, dict) or res.get(k) != desc.get(k)]
+                            problems.append(('inspect_unstable', {'op': ev['i'], 'kind': kind, 'args': args,
+                                                                  'after_apply': applied_here, 'differs_in': what}))
                     elif op['op'] == 'refactor_apply':
                         if res == 'applied' and desc is not None:
                             model.apply_refactoring(desc)
